@@ -18,6 +18,8 @@ register(Contract(
         'len': 'len(result) <= len(self._jump_targets)',
         'nobe': 'implies(len(self.backedges) == 0, result == self._jump_targets)',
         'distinct': 'implies(distinct(self._jump_targets), distinct(result))',
+        # the number of forward targets is the number of entries that are not declared back edges
+        'len-rank': 'len(result) == fwd_rank(self._jump_targets, self.backedges, len(self._jump_targets))',
     },
     loops={'for j in self._jump_targets': LoopSpec(inv={
         'from-prefix': 'all(any(self._jump_targets[k] == acc[p] for k in range(_i)) for p in range(len(acc)))',
@@ -26,6 +28,7 @@ register(Contract(
         'len': 'len(acc) <= _i',
         'nobe': 'implies(len(self.backedges) == 0, len(acc) == _i and all(acc[k] == self._jump_targets[k] for k in range(_i)))',
         'distinct': 'implies(distinct(self._jump_targets), distinct(acc))',
+        'len-rank': 'len(acc) == fwd_rank(self._jump_targets, self.backedges, _i)',
     })},
     properties=['C13', 'C14', 'C05'],
 ))
